@@ -32,7 +32,7 @@ class Job:
 
     def __init__(self, rel, pkgname, harness, entry, params=None, flags=None, tag="", extra_overlay=None,
                  twin=False, load_dir=None, pkg_pattern=None, cost=1.0, expect_violation=None, only_kf=None,
-                 import_path=None):
+                 import_path=None, deadline=None):
         self.rel = rel                  # package directory relative to load_dir (e.g. util/container)
         self.pkgname = pkgname
         self.harness = harness if isinstance(harness, list) else [harness]   # files under /verif/harness or absolute
@@ -47,6 +47,7 @@ class Job:
         self.cost = cost
         self.only_kf = only_kf          # slug of the known finding this job confirms (violation expected)
         self.import_path = import_path or (MOD + "/" + rel)
+        self.deadline = deadline        # seconds of wall clock for this entry (None = tier default)
         self.result = None
 
     def group_key(self):
@@ -151,7 +152,9 @@ def run_jobs(ctx, jobs, timeout=3000):
         for k, b in enumerate(buckets):
             if not b:
                 continue
-            specs = [{"entry": j.import_path + "." + j.entry, "params": j.params, "witness": j.twin, "tag": j.tag} for j in b]
+            dflt = 150 if ctx.tier == "quick" else 1500
+            specs = [{"entry": j.import_path + "." + j.entry, "params": j.params, "witness": j.twin, "tag": j.tag,
+                      "deadline_s": j.deadline or dflt} for j in b]
             shards.append((b, (symgo, gdir, k, ov, b[0], specs, timeout)))
     with cf.ThreadPoolExecutor(max_workers=NCPU) as pool:
         futs = {pool.submit(run_shard, s[1]): s[0] for s in shards}
